@@ -451,3 +451,23 @@ Definition transpose_dict_step : prog :=
 
 Definition more_components_disciplined : bool :=
   disciplined 0 0 transpose_dict_reset && disciplined 1 0 transpose_dict_step.
+
+(* ---------- HerReplayBuffer: retained info dicts ----------
+   add(obs, next_obs, action, reward, done, infos): args 0..4 as [buffer_add]; arg 5 = the info dicts the caller
+   passed, arg 6 = the MUTABLE VALUES held inside those dicts (nested dict / array / list): a second object, reachable
+   from the first.  live slots 0..4 as above, 5 = the info dicts retained for the written cell, 6 = the mutable values
+   reachable from them.  copy.deepcopy(infos) creates a fresh object for BOTH; sample() computes the relabelled reward
+   from the retained infos (compute_reward(..., infos)). *)
+Definition her_add : prog :=
+  buffer_add ++ [ INew 5 32 [RArg 5]; IStore 5 (RTmp 5); INew 6 32 [RArg 6]; IStore 6 (RTmp 6) ].
+Definition her_sample : prog :=
+  [ INew 0 27 [RSlot 0]; INew 1 27 [RSlot 1]; INew 2 27 [RSlot 2]; INew 3 33 [RSlot 1; RSlot 5; RSlot 6]; INew 4 27 [RSlot 4];
+    IRet (RTmp 0); IRet (RTmp 1); IRet (RTmp 2); IRet (RTmp 3); IRet (RTmp 4) ].
+(* one-level copy `[info.copy() for info in infos]`: the dicts are new, the values inside them are still the caller's *)
+Definition her_add_shallow : prog :=
+  buffer_add ++ [ INew 5 32 [RArg 5]; IStore 5 (RTmp 5); IStore 6 (RArg 6) ].
+(* pinned (before fix 6f36409): `self.infos[self.pos] = infos` keeps the caller's dicts themselves *)
+Definition her_add_pinned : prog :=
+  buffer_add ++ [ IStore 5 (RArg 5); IStore 6 (RArg 6) ].
+
+Definition her_components_disciplined : bool := disciplined 7 7 her_add && disciplined 0 7 her_sample.
